@@ -12,6 +12,7 @@ ENGINES = [
     {"name": "E7 error discipline", "path": "geolint/errors.py", "serves_properties": ["C02", "C05", "C11"], "kind_free_text": "role-based: raise sites of a documented error class, call-graph reachability from entry points, handler interception, validate-before-use ordering, payload agreement"},
     {"name": "call graph", "path": "geolint/callgraph.py", "serves_properties": ["C02", "C05", "C11", "C12"], "kind_free_text": "callee resolution by names, annotation-derived receiver types with dynamic dispatch over subclasses, super(), properties, operators; CHA fallback"},
     {"name": "E4.V2/V3 + E8 variance and conjugation", "path": "geolint/variance.py", "serves_properties": ["C07", "C08"], "kind_free_text": "constant propagation of covariant=/tensor_rank= through super().__init__ chains along the MRO; diagram-edge discipline in __apply__; translation-conjugation idiom"},
+    {"name": "E1 effect/alias engine", "path": "geolint/aliaseng.py", "serves_properties": ["C12", "C05"], "kind_free_text": "interprocedural abstract interpretation (geolint/av.py values: object identity, shallow-copy attribute sharing, ndarray memory with DEF/SOME/UNK certainty; geolint/npmodel.py numpy aliasing table; context per copy= flag; summaries to a fixpoint) with a public-boundary layer geolint/purity.py"},
     {"name": "mutation self-test", "path": "geolint/selftest.py", "serves_properties": [], "kind_free_text": "in-memory textual variants of the current tree: breaking variants must be reported with the named rule, twins must be silent"},
     {"name": "E9 kind dispatch", "path": "geolint/dispatch.py", "serves_properties": ["C09"], "kind_free_text": "decision-list evaluation of isinstance dispatch over all ordered pairs of concrete kinds with static class hierarchy; reduction graph, cycles, documented pairs, kind-blind equality short-cut"},
 ]
@@ -86,5 +87,17 @@ CHECKS = [
         "technique": "context-sensitive AST rules (enclosing isinstance arms and exception handlers) over the three intersect implementations",
         "text": "Plumbing of C18 on all paths including both exception handlers never executed by the suite: every bounded operand's membership test is a conjunct of the filter applied to the meet result, the dependent_values mask is applied to every collection operand and only under a guard that really separates collections from single objects, facet results pass through distinct, suppressed dependence checks are compensated by ~is_zero(). Geometric correctness of meet and contains is NOT decided.",
         "note": "filters hidden in helper calls are UNDECIDED",
+    },
+    {
+        "id": "C05", "engine": "E7 error discipline", "design_ref": "4 (E7, E1), 5 C05",
+        "technique": "E7 raise-site/ordering rules on add_edge; E1 whole-program effect analysis restricted to cache memory; def-use of the cached value against the cache key",
+        "text": "Two clauses of C05 (thin, labelled so): both TensorComputationError guards of add_edge exist, are reachable and come before the indices they test are consumed or recorded; the epsilon/delta caches are filled only by the owning constructor with a fresh array that depends on the cache key alone and no array aliasing a cache is written anywhere in the package. That calculate() builds the right einsum subscripts and that the epsilon/delta entries equal their definitions - the heart of C05 - is NOT decided; a mutant there is invisible to this check.",
+        "note": "shares the E1 engine run with C12",
+    },
+    {
+        "id": "C12", "engine": "E1 effect/alias engine", "design_ref": "4 (E1), 5 C12",
+        "technique": "whole-program interprocedural alias and effect analysis (abstract interpretation over the AST, summaries to a fixpoint over the call graph, context-sensitive in the copy= flag)",
+        "text": "C12 is an effect property and is decided as such: for every function of the package every in-place write construct (item/augmented assignment, out=, in-place ndarray methods, container mutators, attribute rebinding, global/class-attribute stores) is traced to the memory or object it may hit; it is a violation when at a public entry point the target is still an argument, self, a cached attribute (_plane/_line), a module constant (I, J, infty, ...), a shared default-argument object or a class-level cache, for every input (DEF) or for an ordinary input (SOME, e.g. np.asarray(x) aliases an ndarray x). Sound up to UNDECIDED sites (listed in evidence; 0 today) and the numpy aliasing table.",
+        "note": "trusts the numpy 1.26 aliasing table (validated with np.shares_memory) and the sanctioned-mutator table; path-insensitive between alias condition and write condition",
     },
 ]
